@@ -1,6 +1,7 @@
 package values
 
 import (
+	"math"
 	"reflect"
 )
 
@@ -33,7 +34,7 @@ func Equal(a, b any) bool { //nolint: gocyclo
 		reflect.Uint, reflect.Uint8, reflect.Uint16, reflect.Uint32, reflect.Uint64:
 		return compareInts(ra, rb) == 0
 	case reflect.Float32, reflect.Float64:
-		return ra.Convert(float64Type).Float() == rb.Convert(float64Type).Float()
+		return compareNumbers(ra, rb) == 0
 	case reflect.String:
 		return ra.String() == rb.String()
 	case reflect.Map:
@@ -86,12 +87,69 @@ func Less(a, b any) bool {
 		reflect.Uint, reflect.Uint8, reflect.Uint16, reflect.Uint32, reflect.Uint64:
 		return compareInts(ra, rb) < 0
 	case reflect.Float32, reflect.Float64:
-		return ra.Convert(float64Type).Float() < rb.Convert(float64Type).Float()
+		return compareNumbers(ra, rb) == -1
 	case reflect.String:
 		return ra.String() < rb.String()
 	default:
 		return false
 	}
+}
+
+// compareNumbers compares two numbers of which at least one is a float by their numeric
+// values: -1, 0, 1, or 2 when a NaN makes them unordered. An integer is not converted
+// to float64 for this, which would round it beyond 2^53 (MaxInt64 is not 2^63).
+func compareNumbers(ra, rb reflect.Value) int {
+	fa, fb := isFloatKind(ra.Kind()), isFloatKind(rb.Kind())
+	switch {
+	case fa && fb:
+		a, b := ra.Float(), rb.Float()
+		switch {
+		case a < b:
+			return -1
+		case a > b:
+			return 1
+		case a == b:
+			return 0
+		}
+		return 2
+	case fa:
+		if c := compareIntFloat(rb, ra.Float()); c != 2 {
+			return -c
+		}
+		return 2
+	default:
+		return compareIntFloat(ra, rb.Float())
+	}
+}
+
+// compareIntFloat compares the integer held by ri with f.
+func compareIntFloat(ri reflect.Value, f float64) int {
+	const two63, two64 = 9223372036854775808.0, 18446744073709551616.0
+	switch {
+	case f != f:
+		return 2
+	case f >= two64, f >= two63 && !isUintKind(ri.Kind()):
+		return -1
+	case f < -two63, f < 0 && isUintKind(ri.Kind()):
+		return 1
+	}
+	// the whole part of f now fits the integer's type
+	whole := math.Trunc(f)
+	var c int
+	if isUintKind(ri.Kind()) {
+		c = cmpOrdered(ri.Uint(), uint64(whole))
+	} else {
+		c = cmpOrdered(ri.Int(), int64(whole))
+	}
+	switch {
+	case c != 0:
+		return c
+	case f > whole:
+		return -1
+	case f < whole:
+		return 1
+	}
+	return 0
 }
 
 // compareInts compares two integers of any width and signedness by value.
